@@ -50,6 +50,12 @@ func (vertex *Vertex) HasProperty(key string) bool {
 	return ok
 }
 
+// containsNul reports whether s contains a zero byte. Identifiers are stored as
+// components of NUL-separated keys, so such a string cannot be stored faithfully.
+func containsNul(s string) bool {
+	return strings.IndexByte(s, 0) >= 0
+}
+
 // Validate returns an error if the vertex is invalid
 func (vertex *Vertex) Validate() error {
 	if vertex.Gid == "" {
@@ -57,6 +63,9 @@ func (vertex *Vertex) Validate() error {
 	}
 	if vertex.Label == "" {
 		return errors.New("'label' cannot be blank")
+	}
+	if containsNul(vertex.Gid) || containsNul(vertex.Label) {
+		return errors.New("'gid' and 'label' cannot contain the NUL character")
 	}
 	for k := range vertex.GetDataMap() {
 		err := ValidateFieldName(k)
@@ -121,6 +130,9 @@ func (edge *Edge) Validate() error {
 	if edge.To == "" {
 		return errors.New("'to' cannot be blank")
 	}
+	if containsNul(edge.Gid) || containsNul(edge.Label) || containsNul(edge.From) || containsNul(edge.To) {
+		return errors.New("'gid', 'label', 'from' and 'to' cannot contain the NUL character")
+	}
 	for k := range edge.GetDataMap() {
 		err := ValidateFieldName(k)
 		if err != nil {
@@ -157,6 +169,9 @@ func ValidateFieldName(k string) error {
 }
 
 func validate(k string) error {
+	if containsNul(k) {
+		return errors.New(`cannot contain the NUL character`)
+	}
 	if strings.ContainsAny(k, `!@#$%^&*()+={}[] :;"',.<>?/\|~`) {
 		return errors.New(`cannot contain: !@#$%^&*()+={}[] :;"',.<>?/\|~`)
 	}
